@@ -4,6 +4,7 @@ import Mouette.Lemmas.RingMesh
 import Mouette.Lemmas.RingCheck
 import Mouette.Lemmas.RingVerts
 import Mouette.Lemmas.RingVerts2
+import Mouette.Lemmas.RingComplete
 /-!
 # C01 (part 3) — rotational order of the corners around a vertex (`ring_sorted`, P1)
 
@@ -230,5 +231,32 @@ example : vertexToCorners (build 4 [[0, 1, 2], [2, 1, 3]] true) 1 = [1, 4] :=
   ring_sorted_border rfl (ringOpenB_sound (by decide +kernel))
 example : ∃ r, vertexToCorners (build 4 [[0, 1, 2], [0, 2, 3], [0, 3, 1], [1, 3, 2]] true) 0 = [6, 3, 0].rotate r :=
   ring_sorted_interior rfl (ringClosedB_sound (by decide +kernel))
+
+/-! ### the umbrella hypothesis is decidable: the checker the driver evaluates is equivalent to it -/
+section decidableUmbrella
+variable {faces : Faces} (nv : Nat)
+
+/-- **completeness of the umbrella checker** (converse of `umbrella_check_sound`): on a built oriented mesh with sorting on, whenever
+the corners at `v` form one open fan or one closed fan (the textbook umbrella condition), `umbrellaB` evaluates to `true` -/
+theorem umbrella_check_complete (hO : Oriented faces) {v : Nat}
+    (hu : ∃ ring, RingOpen (build nv faces true) v ring ∨ RingClosed (build nv faces true) v ring) :
+    umbrellaB (build nv faces true) v = true := umbrellaB_complete nv hO hu
+
+/-- so `umbrellaB` DECIDES the umbrella condition -/
+theorem umbrella_check_iff (hO : Oriented faces) (v : Nat) :
+    umbrellaB (build nv faces true) v = true ↔
+      ∃ ring, RingOpen (build nv faces true) v ring ∨ RingClosed (build nv faces true) v ring := umbrellaB_iff nv hO v
+
+/-- **`ring_sorted` from decidable hypotheses only**: `Oriented faces` (no directed side twice) and `umbrellaB … v = true`, both
+evaluated by the driver on every generated input; by `umbrella_check_iff` nothing is lost with respect to the umbrella condition -/
+theorem ring_sorted_of_check {v : Nat} (h : umbrellaB (build nv faces true) v = true) :
+    SortedRing (build nv faces true) v (vertexToCorners (build nv faces true) v) :=
+  ring_sorted rfl (umbrella_check_sound h)
+
+end decidableUmbrella
+
+/-- non-vacuity of `umbrella_check_complete`: the tetrahedron satisfies its hypotheses at vertex 0, hence the checker accepts it -/
+example : umbrellaB (build 4 [[0, 1, 2], [0, 2, 3], [0, 3, 1], [1, 3, 2]] true) 0 = true :=
+  umbrella_check_complete 4 (by decide +kernel) ⟨[6, 3, 0], Or.inr (ringClosedB_sound (by decide +kernel))⟩
 
 end Mouette.Props.C01
